@@ -151,7 +151,7 @@ func firstFree(p ...node) node {
 	}
 	return altN{p, c}
 }
-func opt(n node) node          { return optN{n} }
+func opt(n node) node           { return optN{n} }
 func star(n node, max int) node { return repN{n, 0, max} }
 func plus(n node, max int) node { return repN{n, 1, max} }
 
